@@ -18,6 +18,7 @@ def main(tier, seed, replay):
         k.validate_profile("core2", 60)
         k.validate_profile("rates", 100)
         k.validate_profile("split", 80)
+        k.validate_profile("timeout", 80)
     else:
         k.model_check("MC_Mut", mc_consts(ops=4, ticks=3, idle=2), inv, timeout=3000)
         k.model_check("MC_Mut2", mc_consts(ents=("e1", "e2"), ops=3, ticks=3, kinds=("spawn", "mutate", "insert")), inv, timeout=3000)
@@ -28,6 +29,7 @@ def main(tier, seed, replay):
         k.validate_profile("core2", 1500)
         k.validate_profile("rates", 2000)
         k.validate_profile("split", 1500)
+        k.validate_profile("timeout", 1500)
     k.selftest(tr)
     return k.finish(assumptions=[
         "'at rest' = after the settle rounds of the driver (perfect link, every acknowledgement delivered) one more tick is run and must send nothing",
